@@ -30,6 +30,8 @@ def gen(rng, k):
     kind = ("lattice", "lattice_noise", "two", "random", "clean", "fine", "sparse")[k % 7]
     if k % 21 == 10:
         kind = "offzero"
+    if k % 21 == 17:
+        kind = "stretched"
     a = np.array([rng.uniform(15, 35), rng.uniform(-4, 4)])
     b = np.array([rng.uniform(-4, 4), rng.uniform(15, 35)])
     if kind == "fine":   # fine-meshed: lattice vectors only a few tolerances long, re-matching may re-index the same peaks
@@ -74,6 +76,17 @@ def gen(rng, k):
             a, b, off = b, a, off[::-1]
         zero = origin + off
         pts = [zero.copy()] + [origin + order[s_][0] * a + order[s_][1] * b for s_ in sel]
+    elif kind == "stretched":
+        # a lattice whose spacing grows with the distance from the zero point along one direction (distortion): the fit of
+        # the inner peaks and the fit after re-matching the outer ones differ, a length limit lies between the two
+        l0 = float(rng.uniform(18, 24))
+        st = float(rng.uniform(0.035, 0.045))
+        zero = rng.uniform(95, 105, 2)
+        ks_ = [k_ for k_ in range(-4, 5) if k_ != 0]
+        along = np.array([0.0, 1.0]) if rng.random() < 0.5 else np.array([1.0, 0.0])
+        across = along[::-1]
+        a, b = along * l0, across * l0
+        pts = [zero.copy()] + [zero + along * l0 * k_ * (1 + st * abs(k_)) for k_ in ks_] + [zero + across * l0, zero - across * l0]
     elif kind == "sparse":
         # few points far apart compared with the tolerance, on integer coordinates, default-like parameters: the best
         # lattice explaining them is fine-meshed compared with the tolerance (high indices)
@@ -98,6 +111,12 @@ def gen(rng, k):
          "min_angle": float(rng.uniform(0.1, 0.5)), "min_delta": float(rng.choice([0, 5, 10])),
          "max_delta": float(rng.choice([np.inf, 80, 50])), "min_points": int(rng.choice([3, 10, 100])),
          "cand": None}
+    if kind == "stretched":
+        p["elev"] = np.ones(len(pts))
+        p.update({"tolerance": 2.0 if k % 2 else 3.0, "min_match": 3, "min_angle": float(np.pi / 10), "min_delta": 0.0,
+                  "max_delta": float(np.linalg.norm(a)) * float(rng.uniform(1.08, 1.098)), "min_points": 10})
+        if p["tolerance"] == 3.0:
+            p["cand"] = [a.tolist(), b.tolist()]
     if kind == "offzero":
         p["elev"] = np.ones(len(pts))
         p.update({"tolerance": 3.0, "min_match": 3, "min_angle": float(np.pi / 10), "min_delta": 0.0,
